@@ -803,7 +803,9 @@ class LLMRails:
                 cache_key = self._get_events_cache_key(messages + [new_message])
                 self.events_history_cache[cache_key] = events
             else:
-                output_state = {"events": events}
+                # The state carries the whole conversation: the events that came in through the
+                # state object plus the events of this call
+                output_state = {"events": state_events + events}
 
         # If logging is enabled, we log the conversation
         # TODO: add support for logging flag
